@@ -200,6 +200,43 @@ pub fn run(rec: &mut Rec, rng: &mut Rng, thorough: bool) {
         StatusCode::NotFound, StatusCode::MethodNotAllowed, StatusCode::PayloadTooLarge,
         StatusCode::InternalServerError, StatusCode::NotImplemented, StatusCode::ServiceUnavailable,
     ];
+    // the string views of the tokens, in both call orders on this thread: each must be the canonical spelling and
+    // parse back to the value it came from, whatever was stringified before
+    for order in 0..2 {
+        let r = std::panic::catch_unwind(|| {
+            let mut bad: Vec<String> = vec![];
+            let m_first = order == 0;
+            let check_m = |bad: &mut Vec<String>| {
+                for m in [Method::Get, Method::Put, Method::Patch] {
+                    if m.to_str().as_bytes() != m.raw() || Method::try_from(m.to_str().as_bytes()).ok() != Some(m) {
+                        bad.push(format!("Method {:?}.to_str() = {:?}", m, m.to_str()));
+                    }
+                }
+            };
+            let check_t = |bad: &mut Vec<String>| {
+                for t in [MediaType::PlainText, MediaType::ApplicationJson] {
+                    if MediaType::try_from(t.as_str().as_bytes()).ok() != Some(t) {
+                        bad.push(format!("MediaType {:?}.as_str() = {:?}", t, t.as_str()));
+                    }
+                }
+            };
+            if m_first {
+                check_m(&mut bad);
+                check_t(&mut bad);
+                check_m(&mut bad);
+            } else {
+                check_t(&mut bad);
+                check_m(&mut bad);
+                check_t(&mut bad);
+            }
+            bad
+        });
+        match r {
+            Err(_) => rec.oracle_fail("C16", "to_str / as_str panicked when called after one another", &["rawtable".into()]),
+            Ok(bad) if !bad.is_empty() => rec.oracle_fail("C16", &format!("string views do not round-trip: {:?}", bad), &["rawtable".into()]),
+            _ => {}
+        }
+    }
     let join = |v: Vec<String>| v.join(",");
     let line = format!(
         "methods={} versions={} media={} status={}",
